@@ -85,6 +85,7 @@ structure Ctx where
   depth : Nat := 0         -- enclosing loops in this function / subshell
   inFunc : Bool := false
   inTrap : Bool := false   -- running a trap action (trap actions are not re-entered)
+  trapSt : Nat := 0        -- `$?` when the trap action began (what a bare `exit` in it returns)
 
 abbrev Res := Option (Flow × Env)
 
@@ -120,26 +121,27 @@ def forItems (f : Stmt → Env → Res) (x : Str) (b : Prog) : List Str → Env 
       | (true, fl') => some (fl', e1)
       | (false, _) => forItems f x b rest e1
 
+/-- The status of a `case` command whose last selected clause was empty, or that selected no
+    clause, is 0 ("zero if no pattern matches, otherwise the status of the last command
+    executed"); `$?` itself is not touched while the clauses are being selected. -/
+def caseDone (nonEmptyLast : Bool) (e : Env) : Env :=
+  if nonEmptyLast then e else { e with status := 0 }
+
 /-- `case`: the first item with a matching pattern; `;&` runs the next body too, `;;&` goes on
-    testing. -/
-def caseItems (f : Stmt → Env → Res) (str : Str) : Bool → Items → Env → Res
-  | _, .nil, e => some (.norm, e)
-  | force, .cons pats bodyp op rest, e =>
+    testing.  `ne`: the last clause selected so far had commands. -/
+def caseItems (f : Stmt → Env → Res) (str : Str) : Bool → Bool → Items → Env → Res
+  | _, ne, .nil, e => some (.norm, caseDone ne e)
+  | force, ne, .cons pats bodyp op rest, e =>
     if force || pats.any (patMatches str) then
-      match seqList f bodyp (if bodyp.isNil then { e with status := 0 } else e) with
+      match seqList f bodyp e with
       | none => none
       | some (.norm, e1) =>
         match op with
-        | .brk => some (.norm, e1)
-        | .fall => caseItems f str true rest e1
-        | .resume => caseItems f str false rest e1
+        | .brk => some (.norm, caseDone (!bodyp.isNil) e1)
+        | .fall => caseItems f str true (!bodyp.isNil) rest e1
+        | .resume => caseItems f str false (!bodyp.isNil) rest e1
       | some r => some r
-    else caseItems f str false rest e
-
-/-- Does any item's body get to run? -/
-def caseHits (str : Str) : Bool → Items → Bool
-  | _, .nil => false
-  | force, .cons pats _ _ rest => force || pats.any (patMatches str) || caseHits str false rest
+    else caseItems f str false ne rest e
 
 /-- A subshell environment: same variables, functions, options, `$?`; traps reset. -/
 def subEnv (e : Env) (out : Str) : Env :=
@@ -172,7 +174,7 @@ def sem : Nat → Ctx → Task → Env → Res
     -- a trap action sees `$?` of before, and leaves `$?` as it was unless it exits the shell
     if action.isNil || k.inTrap then some (.norm, e)
     else
-      match seqList (fun st => sem n { k with inTrap := true, ign := false } (.stmt st)) action e with
+      match seqList (fun st => sem n { k with inTrap := true, trapSt := e.status, ign := false } (.stmt st)) action e with
       | none => none
       | some (.exit, e1) => some (.exit, e1)
       | some (_, e1) => some (.norm, { e1 with status := e.status })
@@ -224,7 +226,7 @@ def sem : Nat → Ctx → Task → Env → Res
       match sem n { k with depth := 0 } (.sub p) { subEnv e [] with errexit := false } with
       | none => none
       | some (_, e1) => some (.norm, { e with status := e1.status, vars := (x, stripNl e1.out) :: e.vars })
-    | .exit none => some (.exit, e)
+    | .exit none => some (.exit, if k.inTrap then { e with status := k.trapSt } else e)
     | .exit (some m) => some (.exit, { e with status := status256 m })
     | .ret m =>
       if k.inFunc then
@@ -299,9 +301,7 @@ def sem : Nat → Ctx → Task → Env → Res
       if items.isEmpty then some (.norm, { e with status := 0 })
       else forItems (fun st => sem n { k with depth := k.depth + 1 } (.stmt st)) x b items e
     | .case w is =>
-      if caseHits (expandWord e.vars e.status w) false is then
-        caseItems (fun st => sem n k (.stmt st)) (expandWord e.vars e.status w) false is e
-      else some (.norm, { e with status := 0 })
+      caseItems (fun st => sem n k (.stmt st)) (expandWord e.vars e.status w) false false is e
 
 /-- A whole script: run it, then the EXIT trap; the script's status is that of the last command,
     unless the trap action calls `exit`. -/
